@@ -5,11 +5,31 @@ ROOT = os.path.dirname(os.path.dirname(os.path.abspath(__file__)))
 sys.path.insert(0, ROOT)
 
 META = {
+ "C01": dict(
+   technique="Hypothesis-driven grammar-based generation of domain ASTs + outside-form injection; read-back through public attributes compared with the source AST structurally and under a reference interpreter",
+   text="Generated fragment-F domains (and the same with one outside form injected) are rendered with generated layout/case/comments, parsed by the library and read back through public attributes; vocabulary and every action must equal the source (canonical structure, else behaviour on calls x states); outside forms must be faithful or raise at parse / first grounding / first evaluation.",
+   note="Trusts the reference model (unit-tested at start-up) and the read-back walker (public attributes). Known finding K2 (lifted function term with repeated parameter) judged against a defect model.",
+   design="6/C01"),
+ "C02": dict(
+   technique="bounded-exhaustive truth-table sweep + Hypothesis generation against an independent reference evaluator (exact rationals)",
+   text="is_applicable of operators built from generated domains is compared with the reference truth value of the source precondition for generated (call, state) pairs, and exhaustively for every formula of a bounded family x every call x every assignment of the mentioned atoms x 3 valuations.",
+   note="Trusts the reference evaluator. Known finding K3 (nested and/or/forall groups treated as true) is judged against a defect model: a deviation is excused only if the library equals the model exactly.",
+   design="6/C02"),
+ "C03": dict(
+   technique="Hypothesis generation + harness-owned permutations of effect collections against a reference successor function",
+   text="Operator.apply on generated (domain, call, state) cases whose firing effects are consistent; the serialized result is read by an independent reader and must equal the reference successor under the natural order and under drawn permutations of lifted/grounded effect sets and of the object table.",
+   note="Trusts the reference successor. K3 through 'when' conditions judged against the defect model.",
+   design="6/C03"),
  "C11": dict(
    technique="bounded-exhaustive enumeration + Hypothesis generation against an independent reference reader (differential), atheris campaign in thorough",
    text="Differential test of PDDLTokenizer against a 40-line character-level reference reader: every token tree up to a node bound under every single-separator substitution and every single parenthesis deletion/insertion (exhaustive), plus generated larger trees/layouts/cases; both string and file input.",
    note="Trusts the reference reader (unit-tested at start-up). ASCII only; blanks = space, tab, CR, LF. One known finding (trailing text accepted) is judged against a defect model.",
    design="6/C11"),
+ "C20": dict(
+   technique="Hypothesis generation; oracle = positional substitution on the source AST, compared as sets both ways",
+   text="For generated actions and type-correct calls (repeated objects, constants, subtype objects) the grounded precondition literals / numeric conditions, per-group add/delete/numeric effects, typed literal text and typed action call reported by the library must equal the source with parameters replaced positionally.",
+   note="Literals inside forall groups are not compared. Known findings K3 (nested literals omitted) and K2 (function term with repeated object printed with one argument) judged against defect models.",
+   design="6/C20"),
 }
 
 def main():
